@@ -46,6 +46,7 @@ structure Doc (σ : Type) where
   servers : List B                  -- server urls
   paths : List (B × PathItem σ)
   schemas : List (B × σ)            -- components.schemas
+  infoSummary : B := []             -- info.summary ("" = absent; a 3.1-only member)
 
 /-! ## request introspection (introspect.go) -/
 
@@ -317,7 +318,7 @@ structure OpIn where
   produces : List B := []                  -- doc.Produces as set by WithProduces ([] = not set)
   deriving Repr, Inhabited
 
-inductive Err | dupOp | status | noPaths | validation | style
+inductive Err | dupOp | status | noPaths | validation | style | strict
   deriving DecidableEq, Repr, Inhabited
 
 /-- `convertOperation`: a RouteDoc is built only when there is something to document -/
@@ -675,27 +676,47 @@ def Operation.map {σ τ} (f : σ → τ) (o : Operation σ) : Operation τ :=
 
 def dialect31 : B := s "https://spec.openapis.org/oas/3.1/dialect/2024-11-10"
 
-/-- `export.Project` up to marshalling: `responses` and the operations of a path item are Go maps /
+/-! `export.Project` up to marshalling: `responses` and the operations of a path item are Go maps /
     struct members, written in key order by `encoding/json` and read back in that order -/
-def project (v : Version) (paths : List (B × PathItem IR)) (schemas : List (B × IR)) : Except Err (Doc Schema) :=
+
+/-- the API-level options the model follows into the document: `WithServer` urls and `WithInfoSummary`
+    (the other configuration objects are compared by the harness, see notes/C07.md) -/
+structure ApiCfg where
+  servers : List B := []
+  summary : B := []
+  deriving Repr, Inhabited
+
+/-- paths, components and the members every document has -/
+def projDoc (v : Version) (paths : List (B × PathItem IR)) (schemas : List (B × IR)) : Doc Schema :=
+  { openapi := match v with | .v30 => s "3.0.4" | .v31 => s "3.1.2"
+    dialect := match v with | .v30 => [] | .v31 => dialect31
+    servers := match v with | .v30 => [] | .v31 => [s "/"]
+    paths := paths.map fun pi => (pi.1, sortByKey (pi.2.map fun mo => (mo.1, mo.2.map (projSchema v))))
+    schemas := schemas.map fun ks => (ks.1, projSchema v ks.2) }
+
+/-- the API options: configured servers replace the 3.1 default; `info.summary` is a 3.1 member — the 3.0
+    projection drops it (`proj30.info`, with a warning) -/
+def applyCfg (cfg : ApiCfg) (v : Version) (d : Doc Schema) : Doc Schema :=
+  { d with servers := if cfg.servers.isEmpty then d.servers else cfg.servers,
+           infoSummary := match v with | .v30 => [] | .v31 => cfg.summary }
+
+/-- `export.Project` up to the marshalling: 3.0 needs paths; under StrictDownlevel a 3.0 target with an
+    `info.summary` is an error instead of a dropped member -/
+def project (cfg : ApiCfg) (strict : Bool) (v : Version) (paths : List (B × PathItem IR)) (schemas : List (B × IR)) :
+    Except Err (Doc Schema) :=
   if v = .v30 ∧ paths.isEmpty then .error .noPaths
-  else
-    .ok {
-      openapi := match v with | .v30 => s "3.0.4" | .v31 => s "3.1.2"
-      dialect := match v with | .v30 => [] | .v31 => dialect31
-      servers := match v with | .v30 => [] | .v31 => [s "/"]
-      paths := paths.map fun pi => (pi.1, sortByKey (pi.2.map fun mo => (mo.1, mo.2.map (projSchema v))))
-      schemas := schemas.map fun ks => (ks.1, projSchema v ks.2) }
+  else if v = .v30 ∧ strict = true ∧ cfg.summary ≠ [] then .error .strict
+  else .ok (applyCfg cfg v (projDoc v paths schemas))
 
 /-- `API.Generate` with the meta-schema validator as a parameter `V` (`none`: validation off).
-    `strict` (StrictDownlevel) only concerns info.summary, mutualTLS and webhooks, none of which the
-    corpus configures: it is carried to make that explicit. -/
-def generate (v : Version) (_strict : Bool) (V : Option (Doc Schema → Bool)) (env : Env) (ops : List OpIn) :
+    `strict` (StrictDownlevel) concerns info.summary (modelled), mutualTLS and webhooks (not reachable
+    through the options of `openapi.New`). -/
+def generate (cfg : ApiCfg) (v : Version) (strict : Bool) (V : Option (Doc Schema → Bool)) (env : Env) (ops : List OpIn) :
     Except Err (Doc Schema) :=
   match build env ops with
   | .error e => .error e
   | .ok r =>
-    match project v r.1 r.2 with
+    match project cfg strict v r.1 r.2 with
     | .error e => .error e
     | .ok d =>
       match V with
